@@ -60,6 +60,11 @@ def family(tier):
     F["nested_index_expr"] = HDR + "xs = [0, 1, 2, 3]\nwhile True:\n" + RD + "    mon.write(xs[xs[v // 256]])\n"
     F["membership"] = HDR + "xs = [3, 5, 7]\nwhile True:\n" + RD + "    if v // 100 in xs:\n        mon.write(1)\n    else:\n        mon.write(0)\n"
     F["len_loop"] = HDR + "xs = [3, 5, 7]\nwhile True:\n    for i in range(len(xs)):\n        mon.write(xs[i])\n"
+    F["assign_longer_into_shorter"] = HDR + "window = [0 for i in range(2)]\nhistory = [i * i for i in range(6)]\nwhile True:\n    window = history\n    mon.write(window[5])\n"
+    F["assign_shorter_into_longer"] = HDR + "window = [0 for i in range(6)]\nhistory = [i * i for i in range(2)]\nwhile True:\n    window = history\n    mon.write(window[1])\n"
+    F["assign_grown_into_fixed"] = HDR + "a = [1]\nb = [7, 8]\nwhile True:\n" + RD + "    a.append(v)\n    b = a\n    mon.write(b[0])\n    a.remove(a[0])\n"
+    F["returned_param_list"] = HDR + "def pick(p, q, first):\n    if first:\n        return p\n    return q\nday = [1, 2]\nnight = [3, 4]\ncur = [0, 0]\nwhile True:\n" + RD + "    cur = pick(day, night, v > 500)\n    mon.write(cur[0])\n    mon.write(day[1])\n    mon.write(night[1])\n"
+    F["returned_global_list"] = HDR + "base = [5, 6]\ndef same():\n    return base\ncur = [0, 0]\nwhile True:\n    cur = same()\n    mon.write(cur[1])\n    mon.write(base[0])\n"
     F["swap_elements"] = HDR + "xs = [1, 2]\nwhile True:\n    a = xs[0]\n    b = xs[1]\n    xs.remove(a)\n    xs.append(a)\n    mon.write(xs[0])\n"
     if tier == "thorough":
         F["two_lists_cross"] = HDR + "a = [1]\nb = [2]\nwhile True:\n" + RD + "    a.append(b[0])\n    b.append(a[0])\n    a.remove(a[0])\n    b.remove(b[0])\n    mon.write(a[0] + b[0])\n"
